@@ -14,6 +14,8 @@ func ChoiceFragments() map[string]*Fragment {
 		{Name: "ca2", Leaves: []Leaf{leaf("A2", "mode", "a"), leaf("AB", "mode", "ab")}},
 		{Name: "cab", Leaves: []Leaf{leaf("AB2", "mode", "ab")}},
 		{Name: "cpc", Leaves: []Leaf{leafEmpty("mode", "pc")}},
+		// a contribution below the presence container of case c, without the container's own entry
+		{Name: "cpvo", Leaves: []Leaf{leaf("z", "mode", "pc", "pv")}},
 		{Name: "cb1", Leaves: []Leaf{leaf("B1", "mode", "b")}},
 		{Name: "cbx", Leaves: []Leaf{leaf("B2", "mode", "b"), leaf("X1", "mode", "x")}},
 		{Name: "cby", Leaves: []Leaf{leaf("Y1", "mode", "y")}},
@@ -30,7 +32,7 @@ func ChoiceFragments() map[string]*Fragment {
 	return m
 }
 
-var ChoiceFragOrder = []string{"ca1", "ca2", "cab", "cpc", "cb1", "cbx", "cby", "cnon", "ie", "il", "inon", "il10"}
+var ChoiceFragOrder = []string{"ca1", "ca2", "cab", "cpc", "cpvo", "cb1", "cbx", "cby", "cnon", "ie", "il", "inon", "il10"}
 
 func choiceFrags() (map[string]*Fragment, []string) {
 	return ChoiceFragments(), ChoiceFragOrder
@@ -132,6 +134,23 @@ func (C08Checker) Check(s *Step) []*Violation {
 		}
 		return t
 	}
+	// stale presence container (C01's recorded finding seen through a choice): the device already carried the presence
+	// container of a case before this transaction although no live intent defined the container itself any more (its
+	// defining entry had been dropped while a child below it stayed); such a container is never deleted again
+	stale := func(p string) string {
+		if p != "/mode/pc" || s.Pre == nil {
+			return ""
+		}
+		if _, had := s.Pre.Device[p]; !had {
+			return ""
+		}
+		for _, li := range s.ModelPre.Live {
+			if _, def := li.Defined[p]; def {
+				return ""
+			}
+		}
+		return ":stale-presence"
+	}
 	winners := map[string]win{}
 	for owner, li := range m.Live {
 		for p := range li.Defined {
@@ -149,7 +168,7 @@ func (C08Checker) Check(s *Step) []*Violation {
 			w, ok := winners[sl.key()]
 			switch {
 			case !ok:
-				vs = append(vs, &Violation{Clause: "case-node-without-contribution", Sig: "case-node-without-contribution:" + tag(sl, w) + ":" + SchemaClass(p),
+				vs = append(vs, &Violation{Clause: "case-node-without-contribution", Sig: "case-node-without-contribution:" + tag(sl, w) + stale(p) + ":" + SchemaClass(p),
 					Detail: fmt.Sprintf("device carries %s=%s (case %s of choice %s) although no live intent contributes to that choice; live=%s", p, dev[p], sl.cas, sl.key(), m.Key())})
 			case w.cas != sl.cas:
 				t := tag(sl, w)
@@ -211,7 +230,7 @@ func (C08Checker) Check(s *Step) []*Violation {
 				case inCase:
 					t += ":requester-was-in-losing-case"
 				}
-				vs = append(vs, &Violation{Clause: "losing-case-present", Sig: "losing-case-present:" + t + ":" + SchemaClass(p),
+				vs = append(vs, &Violation{Clause: "losing-case-present", Sig: "losing-case-present:" + t + stale(p) + ":" + SchemaClass(p),
 					Detail: fmt.Sprintf("device carries %s=%s of case %s, but the highest-precedence contribution to choice %s is in case %s (priority %d); live=%s", p, dev[p], sl.cas, sl.key(), w.cas, w.prio, m.Key())})
 			}
 		}
